@@ -89,9 +89,7 @@ func randScalar(r *hx.Rng, fd protoreflect.FieldDescriptor) protoreflect.Value {
 
 func randMessage(r *hx.Rng, md protoreflect.MessageDescriptor, depth int) *dynamicpb.Message {
 	m := dynamicpb.NewMessage(md)
-	fields := md.Fields()
-	for i := 0; i < fields.Len(); i++ {
-		fd := fields.Get(i)
+	for _, fd := range allFields(md) {
 		if r.Intn(3) == 0 && fd.Cardinality() != protoreflect.Required {
 			continue
 		}
@@ -142,8 +140,8 @@ func genValues(r *hx.Rng, md protoreflect.MessageDescriptor) []*dynamicpb.Messag
 	var out []*dynamicpb.Message
 	out = append(out, dynamicpb.NewMessage(md))
 	fields := md.Fields()
-	for i := 0; i < fields.Len(); i++ {
-		fd := fields.Get(i)
+	for _, fd := range allFields(md) {
+		fd := fd
 		one := func(f func(m *dynamicpb.Message)) {
 			m := dynamicpb.NewMessage(md)
 			f(m)
